@@ -21,7 +21,7 @@ let parse_score (tok : string) : score =
 let score_str (s : score) : string = Printf.sprintf "%d,%d,%d" (int_of_stype s.sty) (int_of_z s.smate) (int_of_z s.sbits)
 let pv_str (pv : move list) : string = if pv = [] then "-" else String.concat ";" (List.map move_str pv)
 
-type cfg = { depths : int list; quiet : bool; tt : string; low : score; high : score; cancel : int }
+type cfg = { depths : int list; quiet : bool; tt : string; low : score; high : score; cancel : int; ex : string }
 
 let parse_cfg (toks : string list) : cfg =
   let get k = let pre = k ^ "=" in
@@ -29,7 +29,8 @@ let parse_cfg (toks : string list) : cfg =
     | Some t -> String.sub t (String.length pre) (String.length t - String.length pre)
     | None -> failwith ("cfg key missing: " ^ k) in
   { depths = List.map int_of_string (split_on ',' (get "depths")); quiet = (get "q" = "1"); tt = get "tt";
-    low = parse_score (get "low"); high = parse_score (get "high"); cancel = int_of_string (get "cancel") }
+    low = parse_score (get "low"); high = parse_score (get "high"); cancel = int_of_string (get "cancel");
+    ex = (try get "ex" with Failure _ -> "full") }
 
 let make_tt (spec : string) : ttv =
   match split_on ':' spec with
@@ -54,10 +55,12 @@ let setup (zt : ztable) (p0 : position) (t0 : n) (np : int) (fm : int) (hist : m
 
 let run_model (zt : ztable) (c : cfg) (g : gboard) (t : ttv) (depth : int) =
   let cancel = (fun (n : nat) -> c.cancel >= 0 && int_of_nat n >= c.cancel) in
-  search_board zt (full_exploration) (captures_only) model_leaf cancel c.quiet qfuel g t [] (nat_of_int depth) c.low c.high
+  search_board zt (if c.ex = "checks" then checks_or_captures else full_exploration) (captures_only) model_leaf cancel c.quiet qfuel g t [] (nat_of_int depth) c.low c.high
 
 let spec_value (c : cfg) (g : gstate) (depth : int) (root : bool) : score =
-  spec_mm (fun _ _ _ -> true) (fun g _ m -> is_capture_move g.g_pos m) spec_leaf c.quiet qfuel (nat_of_int depth) root g
+  let expl = if c.ex = "checks" then (fun (g : gstate) (g' : gstate) m -> is_capture_move g.g_pos m || in_check g'.g_pos.brd g'.g_turn)
+    else (fun _ _ _ -> true) in
+  spec_mm expl (fun g _ m -> is_capture_move g.g_pos m) spec_leaf c.quiet qfuel (nat_of_int depth) root g
 
 let lt a b = less a b
 let le a b = not (less b a)
@@ -89,7 +92,11 @@ let pv_check (g : gstate) (c : cfg) (depth : int) (v : score) (pv : move list) :
   | Some e -> Some e
   | None ->
     (match pv with
-     | [] -> if depth > 0 && spec_legal g.g_pos g.g_turn <> [] then Some "empty principal variation although a legal move exists" else None
+     | [] ->
+       (* with a selective exploration no legal move may be among the explored ones: the value is then the
+          fold's initial -inf and there is nothing to report *)
+       if c.ex <> "full" && v.sty = NegInf then None
+       else if depth > 0 && spec_legal g.g_pos g.g_turn <> [] then Some "empty principal variation although a legal move exists" else None
      | m :: _ ->
        let child = g_play g (abs_move m) in
        let cv = t (spec_value c child (depth - 1) false) in
